@@ -70,19 +70,10 @@ fn expect_offset(starts: &[usize], len: usize, line: usize, col: usize) -> Optio
 /// field (the only mutable field; `starts` and `text_len` are immutable and
 /// identical for all states of one search).
 fn cache_key(li: &LineIndex) -> String {
-    let d = format!("{li:?}");
-    let i = d.rfind(", cache: ").expect("LineIndex Debug has a cache field");
-    // the field before must be text_len (so this is LineIndex's own last field, not something nested)
-    let before = &d[..i];
-    let j = before.rfind("text_len: ").expect("text_len precedes cache");
-    assert!(before[j + 10..].bytes().all(|b| b.is_ascii_digit()), "unexpected Debug layout: {d}");
-    let key = &d[i + 2..];
-    assert!(key.starts_with("cache: Cell {"), "unexpected Debug layout: {key}");
-    assert!(
-        key.contains("None") || (key.contains("offset:") && key.contains("line_idx:") && key.contains("line_start:")),
-        "cache key lost a field: {key}"
-    );
-    key.to_string()
+    // Everything after the first field (`starts`, the immutable line-start table):
+    // text_len and the cache, whatever its fields are called. No layout assertion —
+    // a refactored cache entry must not turn into a false alarm.
+    debug_key_without_first_field(&format!("{li:?}"))
 }
 
 fn ops_for(len: usize) -> Vec<usize> {
